@@ -123,6 +123,7 @@ def main():
     ap.add_argument('prop'); ap.add_argument('--tier', default=os.environ.get('VERIF_TIER', 'quick'))
     ap.add_argument('--replay', default=None); ap.add_argument('--workers', type=int, default=16)
     ap.add_argument('--only', default=None, help='regex on job names')
+    ap.add_argument('--tl', type=float, default=None, help='override per-job exploration time limit (seconds)')
     a = ap.parse_args()
     import jobs as J
     prop = a.prop
@@ -132,6 +133,8 @@ def main():
     tier = a.tier if a.tier in ('quick', 'thorough') else 'quick'
     joblist = J.JOBS[prop][tier]
     if a.only: joblist = [j for j in joblist if re.search(a.only, j.name)]
+    if a.tl:
+        for j in joblist: j.time_limit = a.tl
     known, fixed = load_known()
     t0 = time.time()
     tot = collections.Counter(); stats = collections.Counter(); called = set(); samples = []; jobinfo = []
